@@ -56,3 +56,16 @@ Theorem C02_loc_reversed_slice_empty : forall divs parts l h,
   concat (loc_parts divs parts (Some l) (Some h)) = [].
 Proof. exact loc_reversed_empty. Qed.
 Print Assumptions C02_loc_reversed_slice_empty.
+
+(* label lists df.loc[[l1, l2, ...]]: exactly the rows carrying a requested label *)
+From DX Require Import LocList LocListProofs.
+Theorem C02_loc_list_rows_sound : forall divs parts labels i x,
+  truthful divs parts -> In x (nth i (ll_parts divs parts labels) []) -> In x labels /\ In x (concat parts).
+Proof. exact ll_rows_sound. Qed.
+Print Assumptions C02_loc_list_rows_sound.
+
+Theorem C02_loc_list_rows_complete : forall divs parts labels x,
+  truthful divs parts -> parts <> [] -> labels_in_range divs labels ->
+  In x labels -> In x (concat parts) -> In x (concat (ll_parts divs parts labels)).
+Proof. exact ll_rows_complete. Qed.
+Print Assumptions C02_loc_list_rows_complete.
